@@ -593,6 +593,7 @@ class FnEmitter:
             return
 
         # ---- prove mode: body rewrites
+        r4_before = self.counts.get('R4', 0)
         # strip doc comments inside the function text
         for t in toks:
             if t.kind == 'doc':
@@ -1357,7 +1358,9 @@ class FnEmitter:
         self.info['functions'].append({'fn': key, 'mode': 'prove', 'contract': rel_c,
                                        'has_contract': bool(con.sections),
                                        'src_lines': [base_line, base_line + text.count('\n')],
-                                       'sha256': body_sha, 'loops': len(loops)})
+                                       'sha256': body_sha, 'loops': len(loops),
+                                       # format!(..) expressions that no R10 wrapper covers: each is an ARBITRARY string for the proof (R4)
+                                       'r4': self.counts.get('R4', 0) - r4_before})
 
     def _apply(self, text, edits, src_origin_for, upto=None):
         """returns list of (text, origin) segments"""
